@@ -264,6 +264,74 @@ def net_faithful(li: int, rule_present: bool, permit: bool, ipi: int, pti: int, 
     check(obs["LINKS"][idx]["PROTOCOLS"]["ALL"] == want, lambda: f"link band {obs['LINKS'][idx]['PROTOCOLS']['ALL']} differs from documented band {want} for load {real_load}")
 
 
+FW_LISTS = [("INTERNAL", "INBOUND", "internal_inbound_acl"), ("INTERNAL", "OUTBOUND", "internal_outbound_acl"), ("DMZ", "INBOUND", "dmz_inbound_acl"),
+            ("DMZ", "OUTBOUND", "dmz_outbound_acl"), ("EXTERNAL", "INBOUND", "external_inbound_acl"), ("EXTERNAL", "OUTBOUND", "external_outbound_acl")]
+
+
+def fw_faithful(li: int, slot: int, permit: bool, ipi: int, pti: int, pri: int, swi: int, fw_on: bool, p1: bool, p2: bool, p3: bool, couple: bool = False):
+    """Firewall leaves on a generated firewall-with-DMZ scenario: one rule is added through the real API to a
+    solver-chosen list of the six at a solver-chosen observed slot; every slot of every list and the three port
+    statuses are compared with the documented encoding of what the firewall really holds; a firewall that is not ON
+    reads as default."""
+    from primaite.simulator.network.hardware.nodes.network.router import ACLAction
+
+    ips = [None, "192.168.1.2", "192.168.1.3"]
+    ports = [None, 80, 53]
+    protos = [None, "icmp", "tcp", "udp"]
+    wcs = [None, "0.0.0.1", "0.0.0.255"]
+    assume(all_of(rng(li, 0, 5), rng(slot, 0, 3), rng(ipi, 0, 2), rng(pti, 0, 2), rng(pri, 0, 3), rng(swi, 0, 2)))
+    if not fw_on:
+        assume(all_of(ipi == 1, pti == 1, pri == 1, swi == 1, permit, li == 0, slot == 0, p1, p2, p3))
+    if couple:  # quick tier: address, wildcard and port share one index (every value of every field is still visited)
+        assume(all_of(pti == ipi, swi == ipi))
+    zone, direction, attr = pick(FW_LISTS, li)
+    sl = pick_int(slot, 0, 3)
+    ip, pt, pr, sw = pick(ips, ipi), pick(ports, pti), pick(protos, pri), pick(wcs, swi)
+    with concrete():
+        env, cfg = _env(False, "firewalled")
+        sim = env.game.simulation
+        om = env.agent.observation_manager
+        fw = sim.network.get_node_by_hostname("firewall_1")
+        getattr(fw, attr).add_rule(action=ACLAction.PERMIT if permit else ACLAction.DENY, protocol=pr, src_ip_address=ip, src_wildcard_mask=sw, src_port=pt, dst_port=pt, position=sl)
+        for flag, port in ((p1, fw.external_port), (p2, fw.internal_port), (p3, fw.dmz_port)):
+            if not flag:
+                port.disable()
+        if not fw_on:
+            fw.config.shut_down_duration = 0
+            fw.power_off()
+    try:
+        obs = om.update(sim.describe_state())
+    except Exception as e:
+        fail(f"describe_state/update raised {type(e).__name__}: {str(e)[:200]}")
+    f = obs["NODES"]["FIREWALL0"]
+    if not fw_on:
+        cover("fw_off")
+        for z, d, _a in FW_LISTS:
+            for i in range(4):
+                e = f["ACL"][z][d][i]
+                check(e["permission"] == 0 and e["source_ip_id"] == 0 and e["protocol_id"] == 0, lambda: f"ACL {z}/{d} slot {i} of a firewall that is not ON does not read as default")
+        for k in (1, 2, 3):
+            check(f["PORTS"][k]["operating_status"] == 0, "port of a firewall that is not ON does not read as default")
+        return
+    cover("fw_on")
+    for z, d, a in FW_LISTS:
+        for i in range(4):
+            e = f["ACL"][z][d][i]
+            check(e["position"] == i, "ACL position field differs from the slot")
+            if a == attr and i == sl:
+                check(e["permission"] == (1 if permit else 2), lambda: f"{z}/{d} slot {i}: permission differs from the rule's action")
+                check(e["source_ip_id"] == (1 if ip is None else 2 + ["192.168.1.2", "192.168.1.3"].index(ip)), lambda: f"{z}/{d} slot {i}: source_ip_id differs")
+                check(e["dest_ip_id"] == 1, lambda: f"{z}/{d} slot {i}: dest_ip_id of an any-destination rule is not 1")
+                check(e["source_wildcard_id"] == (1 if sw is None else 2 + wcs[1:].index(sw)), lambda: f"{z}/{d} slot {i}: source_wildcard_id differs")
+                check(e["source_port_id"] == (1 if pt is None else 2 + [80, 53].index(pt)), lambda: f"{z}/{d} slot {i}: source_port_id differs")
+                check(e["dest_port_id"] == e["source_port_id"], lambda: f"{z}/{d} slot {i}: dest_port_id differs")
+                check(e["protocol_id"] == (1 if pr is None else 2 + ["icmp", "tcp", "udp"].index(pr)), lambda: f"{z}/{d} slot {i}: protocol_id differs")
+            else:
+                check(e["permission"] == 0 and e["source_ip_id"] == 0 and e["protocol_id"] == 0, lambda: f"empty slot {i} of {z}/{d} does not read as default (the rule is in {attr} slot {sl})")
+    for k, port in ((1, fw.external_port), (2, fw.internal_port), (3, fw.dmz_port)):
+        check(f["PORTS"][k]["operating_status"] == (1 if port.enabled else 2), lambda: f"firewall port {k} status differs from the interface")
+
+
 def off_memory(ns: int, n_in: int, n_out: int, svc: int, fh: int, acc: int, execs: int, kind: str = "routed"):
     """History independence of the 'not ON' reading: a host is observed while ON with solver-chosen non-default
     quantities (NMNE counts, service state, file health, access / execution counts), then goes down and is observed
@@ -358,6 +426,13 @@ HARNESSES = {
         "thorough": [{"fixed": {"router_on": ro, "rule_present": rp, "part": pt}, "timeout": 1200} for ro in (True, False) for rp in (True, False) for pt in ("acl", "link", "nmne")],
         "cover": ["router_on", "router_off"],
         "bounds": "one ACL rule at any of the 4 observed slots with listed/None address, port, protocol and both actions; 9 link loads; NMNE counts unbounded over two steps; router port enabled/disabled; router ON/OFF",
+    },
+    "fw_faithful": {
+        "fn": fw_faithful,
+        "quick": [{"fixed": {"fw_on": True, "li": l, "p2": True, "p3": True, "couple": True}, "timeout": 280} for l in range(6)] + [{"fixed": {"fw_on": False}, "timeout": 120}],
+        "thorough": [{"fixed": {"fw_on": True, "li": l}, "timeout": 1200} for l in range(6)] + [{"fixed": {"fw_on": False}, "timeout": 120}],
+        "cover": ["fw_on", "fw_off"],
+        "bounds": "generated firewall-with-DMZ scenario; one rule in any of the six lists at any of the 4 observed slots with listed/None address, wildcard, port, protocol and both actions; the three ports enabled/disabled; firewall ON/OFF",
     },
     "off_memory": {
         "fn": off_memory,
